@@ -301,7 +301,7 @@ func c10nonNil(v ssa.Value, b *ssa.BasicBlock, depth int) bool {
 		})
 		return okAll && n > 0
 	case *ssa.Parameter:
-		if b != nil && knownNonNil(b, sameVal(v)) {
+		if b != nil && c10knownNonNil(b, sameVal(v)) {
 			return true
 		}
 		f := x.Parent()
@@ -324,7 +324,7 @@ func c10nonNil(v ssa.Value, b *ssa.BasicBlock, depth int) bool {
 		return true
 	case *ssa.Call, *ssa.Extract:
 		// a constructor of the repository: non-nil when every return hands out a non-nil pointer
-		if b != nil && knownNonNil(b, sameVal(v)) {
+		if b != nil && c10knownNonNil(b, sameVal(v)) {
 			return true
 		}
 		r, ok := c10resOf(v)
@@ -346,7 +346,7 @@ func c10nonNil(v ssa.Value, b *ssa.BasicBlock, depth int) bool {
 		})
 		return okAll && n > 0
 	}
-	return b != nil && knownNonNil(b, sameVal(v))
+	return b != nil && c10knownNonNil(b, sameVal(v))
 }
 
 func runC10M2(c *Ctx, e *c10env, px *c10prover) {
@@ -502,7 +502,7 @@ func runC10M2(c *Ctx, e *c10env, px *c10prover) {
 // c10sizeBody: the function in which the size is computed: the size function, or - when that merely forwards to one
 // same-package helper - the helper. inputs maps the byte-carrying parameters of f (slices, arrays, pointers to arrays)
 // to the offset of their first byte within the bytes the handler gave to the size function; nil at the top.
-func c10sizeBody(e *c10env, f *ssa.Function, inputs map[ssa.Value]int64, depth int) (*ssa.Function, []ssa.Value) {
+func c10sizeBody(e *c10env, f *ssa.Function, inputs map[ssa.Value]int64, depth int) (*ssa.Function, []c10term) {
 	if inputs == nil {
 		inputs = map[ssa.Value]int64{}
 		for _, p := range f.Params {
@@ -511,10 +511,46 @@ func c10sizeBody(e *c10env, f *ssa.Function, inputs map[ssa.Value]int64, depth i
 			}
 		}
 	}
-	var cands []ssa.Value
+	var cands []c10term
 	eachInstr(f, func(i ssa.Instruction) {
 		v, ok := i.(ssa.Value)
-		if !ok || !isIntType(v.Type()) {
+		if !ok {
+			return
+		}
+		if call, isCall := v.(*ssa.Call); isCall {
+			if tup, isTuple := v.Type().(*types.Tuple); isTuple {
+				// a result of a helper that the size function does not name (`_, msgLen, err := parseHeader(data)`)
+				for k := 0; k < tup.Len(); k++ {
+					if !isIntType(tup.At(k).Type()) || c10extractOf(call, k) != nil {
+						continue
+					}
+					if parts, ok := c10callParts(call, k, nil, 0); ok && len(parts) == 1 && parts[0].shift == 0 && parts[0].ref.n == 2 {
+						if base, isIn := inputs[parts[0].ref.root]; isIn && base+parts[0].ref.off == 3 {
+							cands = append(cands, c10resultTerm(call, k))
+						}
+					}
+				}
+				return
+			}
+		}
+		if st := c10structOrPointee(v.Type()); st != nil {
+			// the header decoded into a struct that a helper returns (by value, or a pointer to it): the field
+			// assembled from bytes 3-4
+			switch v.(type) {
+			case *ssa.Call, *ssa.Extract:
+			default:
+				return
+			}
+			for k := 0; k < st.NumFields(); k++ {
+				if ref, ok := c10fieldBytes(v, k, nil, 0); ok && ref.n == 2 {
+					if base, isIn := inputs[ref.root]; isIn && base+ref.off == 3 {
+						cands = append(cands, c10term{v: v, fld: k + 1})
+					}
+				}
+			}
+			return
+		}
+		if !isIntType(v.Type()) {
 			return
 		}
 		switch v.(type) {
@@ -527,7 +563,7 @@ func c10sizeBody(e *c10env, f *ssa.Function, inputs map[ssa.Value]int64, depth i
 			return
 		}
 		if base, isIn := inputs[ref.root]; isIn && base+ref.off == 3 {
-			cands = append(cands, v)
+			cands = append(cands, c10termOf(v))
 		}
 	})
 	if len(cands) > 0 || depth > 2 {
@@ -625,7 +661,7 @@ func runC10S1(c *Ctx, e *c10env, px *c10prover) {
 		res := c10termOf(r.Results[0])
 		ubRel, ok1 := int64(0), false
 		for _, rec := range recs {
-			if u, ok := d.upper(res, c10termOf(rec)); ok && (!ok1 || u < ubRel) {
+			if u, ok := d.upper(res, rec); ok && (!ok1 || u < ubRel) {
 				ubRel, ok1 = u, true
 			}
 		}
@@ -764,7 +800,7 @@ func runC10S2(c *Ctx, e *c10env, bce *c10bce, px *c10prover) {
 			okKey = pc != nil
 		}
 		if okKey {
-			facts := factsAt(lk.Block())
+			facts := c10factsAt(lk.Block())
 			okFlag = c10parseSucceeded(e, pc, facts)
 			if lo, ok := px.at(lk.Block(), 0).lower(c10len(lk.Call.Args[0])); ok && lo >= 1 {
 				nonEmpty = true
